@@ -177,7 +177,7 @@ impl<'a> Reader<'a> {
         let owner_end = self.cursor + owner_len;
         let rr_type = read_u16(&self.octets[owner_end..])?.into();
         let class = read_u16(&self.octets[owner_end + 2..])?.into();
-        let ttl = read_u32(&self.octets[owner_end + 4..])?.into();
+        let raw_ttl = read_u32(&self.octets[owner_end + 4..])?;
         let rdlength = read_u16(&self.octets[owner_end + 8..])?;
         let rdata = Rdata::read(
             class,
@@ -191,7 +191,8 @@ impl<'a> Reader<'a> {
             owner,
             rr_type,
             class,
-            ttl,
+            ttl: raw_ttl.into(),
+            raw_ttl,
             rdata,
         })
     }
@@ -421,6 +422,7 @@ impl<'r, 'b> PeekRr<'r, 'b> {
             rr_type: self.rr_type(),
             class: self.class(),
             ttl: self.ttl(),
+            raw_ttl: self.raw_ttl(),
             rdata,
         })
     }
@@ -468,6 +470,12 @@ pub struct ReadRr<'a> {
     pub rr_type: Type,
     pub class: Class,
     pub ttl: Ttl,
+
+    /// The 32-bit TTL field exactly as it appeared in the message,
+    /// without the RFC 2181 § 8 interpretation applied to
+    /// [`ReadRr::ttl`]. Pseudo-RRs such as OPT and TSIG, which reuse or
+    /// constrain the field, must look at this value.
+    pub raw_ttl: u32,
     pub rdata: Cow<'a, Rdata>,
 }
 
